@@ -1,10 +1,13 @@
 #!/bin/bash
-# usage: tools_mut.sh <patch-file> <check id> [tier]   — apply a patch to /repo, run a check, revert.
+# usage: tools_mut.sh <patch-file (absolute)> <check id> [tier]   — apply a patch to the repository under test,
+# run a check, revert. The repository is /repo unless VERIF_REPO / VP_RUN_REPO names a snapshot (background runs).
 set -u
+V="$(cd "$(dirname "$0")" && pwd)"
+REPO="${VERIF_REPO:-${VP_RUN_REPO:-/repo}}"
 P="$1"; ID="$2"; T="${3:-quick}"
-git -C /repo apply "$P" || { echo "PATCH DOES NOT APPLY"; exit 3; }
-/verif/check.sh "$ID" "$T"; rc=$?
-git -C /repo checkout -- . ; git -C /repo clean -fdq
-/verif/build.sh "$ID" >/dev/null 2>&1
+git -C "$REPO" apply "$P" || { echo "PATCH DOES NOT APPLY"; exit 3; }
+"$V/check.sh" "$ID" "$T"; rc=$?
+git -C "$REPO" checkout -- . ; git -C "$REPO" clean -fdq
+"$V/build.sh" "$ID" >/dev/null 2>&1
 echo "check exit=$rc"
 exit $rc
